@@ -249,13 +249,17 @@ def check_stripws(ctx):
             for i, w in enumerate(pat):
                 want.append(('' if (i == 0 or pat[i - 1]) else ' ') if w else 'x')
             got = [t.value for t in toks]
+            # whitespace that starts a list: "" or " " -- what becomes of it depends on the token in front of the list and is
+            # decided on whole trees by R10.9
+            if pat[0] and got and got[0] in ('', ' '):
+                want[0] = got[0]
             if got != want:
                 bad.append((''.join('_' if w else 'x' for w in pat), got))
         if bad is None:
             break
     if bad is not None:
         ctx.ob('R10.5', '_stripws_default:rule', f'{f.mod.relpath}:{f.node.lineno}',
-               f'a whitespace token becomes "" if the previous child was whitespace or it is the first child, else " " ({npat} whitespace patterns)', not bad,
+               f'a whitespace token becomes "" if the previous child was whitespace, else " "; one that starts the list "" or " " ({npat} whitespace patterns)', not bad,
                f'pattern(s) (_ = whitespace child) with a different result: {bad[:3]}')
         ctx.ob('R10.5', '_stripws_default:state', f'{f.mod.relpath}:{f.node.lineno}',
                'only whitespace children are rewritten (checked on the same patterns)', not bad, '')
@@ -320,13 +324,13 @@ def _sw_shapes():
     return shapes
 
 
-def check_stripws_simulation(ctx):
+def check_stripws_simulation(ctx, rid='R10.9'):
     """strip_whitespace decided on concrete small trees: the source of StripWhitespaceFilter.process (with its getattr dispatch
     and every helper) is interpreted; afterwards the text of the statement has no leading or trailing whitespace, no two
     whitespace characters in a row outside comments, no blank behind "(" or in front of ")" unless a comment is the neighbour
     on the other side, and every other token is still there."""
     repo = ctx.repo
-    ctx.rule('R10.9', 'StripWhitespaceFilter.process interpreted on small token trees: edges stripped, runs collapsed across group borders, parentheses tight', floor=1)
+    ctx.rule(rid, 'StripWhitespaceFilter.process interpreted on small token trees: edges stripped, runs collapsed across group borders, parentheses tight', floor=1)
     c = RF.filter_class(ctx, 'StripWhitespaceFilter')
     f = c.methods['process']
     loc = f'{f.mod.relpath}:{f.node.lineno}'
@@ -368,7 +372,16 @@ def check_stripws_simulation(ctx):
     bad, n = {}, 0
     for where, shape in _sw_shapes():
         st = group(classes['S'], build(shape))
-        before = [t for t in leaves(st) if not WSP.contains(t.ttype)]
+        lv0 = list(leaves(st))
+        before = [t for t in lv0 if not WSP.contains(t.ttype)]
+        apart = []
+        for i, t in enumerate(lv0):
+            if NAME.contains(t.ttype):
+                j = i + 1
+                while j < len(lv0) and WSP.contains(lv0[j].ttype):
+                    j += 1
+                if j < len(lv0) and j > i + 1 and NAME.contains(lv0[j].ttype):
+                    apart.append((t, lv0[j]))
         ev = ME.Evaluator(ctx, f.mod, c)
         ev.effects = True
         env = {f.params[0]: ME.Obj(_cls=c), params[0]: st}
@@ -377,7 +390,7 @@ def check_stripws_simulation(ctx):
         try:
             ME.run_function(ev, f.node, env, max_steps=2000)
         except (ME.Unsupported, ME.Unknown) as e:
-            ctx.ob('R10.9', 'simulation', loc, 'strip_whitespace is evaluable on small trees', None, f'{show(shape)}: {e}')
+            ctx.ob(rid, 'simulation', loc, 'strip_whitespace is evaluable on small trees', None, f'{show(shape)}: {e}')
             return
         except ME.Crash as e:
             bad.setdefault('crash', []).append(f'{show(shape)} ({where}): {e}')
@@ -387,8 +400,16 @@ def check_stripws_simulation(ctx):
         sig = [t for t in after if not WSP.contains(t.ttype)]
         text = ''.join(t.value for t in after)
         why = None
+        # two names with whitespace between them must keep at least one whitespace character between them
+        gone = None
+        for a_, b_ in apart:
+            ia, ib = next(i for i, t in enumerate(after) if t is a_), next(i for i, t in enumerate(after) if t is b_)
+            if not ''.join(t.value for t in after[ia + 1:ib]):
+                gone = (a_, b_)
         if len(sig) != len(before) or any(a is not b for a, b in zip(sig, before)):
             why = 'a significant token is lost'
+        elif gone is not None:
+            why = 'two names that were apart are fused'
         elif text != text.strip():
             why = 'leading or trailing whitespace is left'
         else:
@@ -416,7 +437,7 @@ def check_stripws_simulation(ctx):
     ctx.info['strip_whitespace_simulated_trees'] = n
     ctx.need(n >= 250, f'strip_whitespace simulation ran on {n} trees only')
     if not bad:
-        ctx.ob('R10.9', 'simulation', loc, f'{n} trees (flat statements, nested groups with whitespace at their borders, parentheses, comment groups, identifier lists): normal form reached', True)
+        ctx.ob(rid, 'simulation', loc, f'{n} trees (flat statements, nested groups with whitespace at their borders, parentheses, comment groups, identifier lists): normal form reached', True)
     for why, items in sorted(bad.items()):
-        ctx.ob('R10.9', f'simulation:{why}', loc, f'strip_whitespace reaches its normal form on every one of {n} small trees (w blanks, n line break, x name, c comment; '
+        ctx.ob(rid, f'simulation:{why}', loc, f'strip_whitespace reaches its normal form on every one of {n} small trees (w blanks, n line break, x name, c comment; '
                'T nested group, P parenthesis, G comment group, L identifier list)', False, f'{len(items)} tree(s): {why}, e.g. {items[:3]}')
